@@ -63,7 +63,7 @@ impl Monitor for C05 {
         "case = two standard typed tables t (queried) and u (joined, read from disk by the code under test), key columns of every scalar type with NULL keys, keys duplicated on either side or absent on one side, 0-12 rows per side, ON in either orientation, INNER / OUTER, and a generated SELECT / DISTINCT / aggregate statement over both sides' columns (qualified and unqualified names). Oracle: the engine's result equals the engine's own result over the harness-paired rows (equal non-NULL keys, ordered by r then s position, OUTER adds one NULL-extended row per partnerless r in non-aggregate queries) written as one pre-joined table; `*` lists t's columns then u's with clashing names qualified; a missing join column / table / file is an error. Non-trivial = a key with multiplicity >= 2 on one side and >= 1 on the other, or NULL keys on both sides; distinct by case hash"
     }
     fn assumptions(&self) -> Vec<String> { vec!["each side's rows are the engine's own SELECT * rows (C01/C02)".into(), "the statement over the pre-joined table is evaluated by the engine (C03/C04)".into()] }
-    fn sizes(&self, tier: Tier) -> Sizes { match tier { Tier::Quick => Sizes { cases: 5_000, min_nontrivial: 1_500 }, Tier::Thorough => Sizes { cases: 250_000, min_nontrivial: 80_000 } } }
+    fn sizes(&self, tier: Tier) -> Sizes { match tier { Tier::Quick => Sizes { cases: 24_000, min_nontrivial: 7_000 }, Tier::Thorough => Sizes { cases: 250_000, min_nontrivial: 80_000 } } }
 
     fn generate(&self, rng: &mut Rng, _tier: Tier) -> J {
         let jt = rng.chance(2, 3); let ju = rng.chance(2, 3);
